@@ -151,3 +151,26 @@ func VerifHarness_C10_Load() {
 		verifReach("loaded")
 	}
 }
+
+// well-formed entries with missing / blank fields, reached through every ranking stage
+func VerifHarness_C10_EmptyFields() {
+	blank := []string{"", " ", "  "}[verifIntRange("blank", 0, 2)]
+	cmds := []Command{
+		{Command: blank, Description: "create directory", Keywords: []string{"make", "folder"}},
+		{Command: "ls", Description: blank, Keywords: nil},
+		{Command: "mkdir", Description: "create directory", Keywords: []string{blank}, Tags: []string{blank}, Niche: blank},
+	}
+	for i := range cmds {
+		vFill(&cmds[i])
+	}
+	db := &Database{Commands: cmds}
+	db.BuildUniversalIndex()
+	db.buildTFIDFSearcher()
+	q := []string{"create directory", "make folder", "ls", "list files", "zz"}[verifIntRange("query", 0, 4)]
+	o := SearchOptions{Limit: 5, UseNLP: verifBool("nlp"), UseFuzzy: verifBool("fuzzy"), AllPlatforms: true}
+	_ = db.SearchUniversal(q, o)
+	_ = db.GetSuggestions(q, 3)
+	_ = db.SearchWithNLP(q, o)
+	_ = db.SearchWithFuzzy(q, o)
+	verifReach("returned")
+}
